@@ -89,6 +89,9 @@ def plan(tier, seed):
             for i in range(0, len(sub), B):
                 tasks.append(('pin', {'profile': profile, 'g': gi, 'shapes': sub[i:i + B]}))
     tasks.append(('general', {'n': 3}))
+    for fn in CALLSITES:
+        for np_ in (None, 0, 1, 2):
+            tasks.append(('callsite', {'fn': fn, 'paths': np_}))
     tasks.append(('hooks', {}))
     return tasks
 
@@ -239,6 +242,19 @@ def install(M):
         return P.state.get('hooks_disabled', FALSE)
     M.env['git::repository::should_disable_internal_git_hooks'] = should_disable
 
+    def global_args(P, c, args, dt):
+        return VecV([pystring('-C'), pystring('/w')])
+
+    def exec_with_profile(P, c, args, dt):
+        if 'c12_calls' not in P.state:
+            raise Unsupported('exec_git_with_profile outside the call-site kernel')
+        # what reaches git: the real pinning applied to the arguments of the call site
+        eff = P.call_named('git::repository::args_with_internal_git_profile', [args[0], args[1]])
+        P.state['c12_calls'].append([list(as_bytes(x)) for x in eff.e])
+        return ok(Agg('std::process::Output', [Opaque('ExitStatus', 0), VecV([]), VecV([])]))
+    M.env['git::repository::Repository::global_args_for_exec'] = global_args
+    M.env['git::repository::exec_git_with_profile'] = exec_with_profile
+
 
 def ob_hooks(h, shape):
     """internal git calls never run user hooks: with the guard active, core.hooksPath is overridden
@@ -269,10 +285,115 @@ def ob_hooks(h, shape):
     h.sample = h.witness()
 
 
-OBLIGATIONS = {'pin': ob_pin, 'general': ob_general, 'hooks': ob_hooks}
+REQUIRED_PATCH = ['-U0', '--no-ext-diff', '--no-textconv', '--no-color', '--no-renames', '--no-relative', '--src-prefix=a/', '--dst-prefix=b/']
+CALLSITES = {
+    'diff_added_lines': ('git::repository::Repository::diff_added_lines', 2),
+    'diff_workdir_added_lines': ('git::repository::Repository::diff_workdir_added_lines', 1),
+    'diff_workdir_added_lines_with_insertions': ('git::repository::Repository::diff_workdir_added_lines_with_insertions', 1),
+}
+
+
+def ob_callsite(h, shape):
+    """K3: the patches git-ai parses for added lines are produced with every configuration-dependent rendering
+    neutralised — judged on the argv that finally reaches git (explicit arguments + profile pinning)"""
+    P = h.P
+    M = P.M
+    fn, nrefs = CALLSITES[shape['fn']]
+    np_ = shape['paths']
+    paths = None
+    if np_ is not None:
+        paths = [[h.byte('p%d_%d' % (i, j), lo=0x21, hi=0x7e) for j in range(2)] for i in range(np_)]
+    P.state['c12_calls'] = []
+    h.inputs_struct = {'fn': shape['fn'], 'pathspecs': [ByteStr(p) for p in paths] if paths is not None else None}
+    repo = Agg('git::repository::Repository', [])
+    args = [Ref(Cell(repo))] + [pystr('r%d' % i) for i in range(nrefs)]
+    if paths is None:
+        args.append(none())
+    else:
+        args.append(some(Ref(Cell(MapV('hash', [[StringV(list(p)), None] for p in paths], 'set')))))
+    try:
+        r = P.call_named(fn, args)
+    except Panic as e:
+        h.panic('K3-no-panic', e.msg)
+        return
+    calls = P.state['c12_calls']
+    if paths is not None and len(paths) == 0:
+        h.require(not calls, 'K3-empty-filter-asks-nothing', 'an empty pathspec filter still ran git (the diff would cover the whole repository)')
+        h.sample = h.witness()
+        return
+    h.require(len(calls) == 1, 'K3-one-git-call', '%d git calls' % len(calls))
+    if len(calls) != 1:
+        return
+    final = calls[0]
+    cut = len(final)
+    for i, t in enumerate(final):
+        if concrete_bytes(t) == b'--':
+            cut = i
+            break
+    opts = [bytes(concrete_bytes(t)).decode() if concrete_bytes(t) is not None else None for t in final[:cut]]
+    missing = [o for o in REQUIRED_PATCH if o not in opts]
+    h.require(not missing, 'K3-patch-call-neutralises-configuration',
+              '`git %s` as git-ai finally runs it lacks %r: the parsed patch depends on the user\'s configuration' % (' '.join(x or '?' for x in opts), missing))
+    if paths is not None:
+        tail = final[cut + 1:]
+        h.require(len(tail) == len(paths) and any_of([all_of([bytes_equal(a, b) for a, b in zip(tail, perm)]) for perm in itertools.permutations(paths)]),
+                  'K3-pathspecs-passed-after-the-separator', 'the pathspecs after `--` are not the requested paths')
+    h.sample = h.witness()
+
+
+OBLIGATIONS = {'pin': ob_pin, 'general': ob_general, 'hooks': ob_hooks, 'callsite': ob_callsite}
+
+
+def _replay_callsite(v, native):
+    import json
+    import os
+    import shutil
+    import subprocess
+    import tempfile
+    inp = v['inputs']
+    tmp = tempfile.mkdtemp(prefix='vc12c')
+    try:
+        repo = os.path.join(tmp, 'r')
+        os.makedirs(repo)
+        env = dict(os.environ, HOME=tmp, GIT_AUTHOR_NAME='v', GIT_AUTHOR_EMAIL='v@v', GIT_COMMITTER_NAME='v', GIT_COMMITTER_EMAIL='v@v')
+        subprocess.run(['git', 'init', '-q', '.'], cwd=repo, env=env, check=True)
+        open(os.path.join(repo, 'f'), 'w').write('x\n')
+        subprocess.run(['git', 'add', '-A'], cwd=repo, env=env, check=True)
+        subprocess.run(['git', 'commit', '-q', '-m', 'c'], cwd=repo, env=env, check=True)
+        rec = os.path.join(tmp, 'argv.json')
+        real = shutil.which('git')
+        stand = os.path.join(tmp, 'standin-git')
+        with open(stand, 'w') as fh:
+            fh.write('#!/usr/bin/env python3\nimport sys, os, json\n'
+                     'if "diff" in sys.argv[1:]:\n    json.dump(sys.argv[1:], open(%r, "w"))\n    sys.exit(0)\n'
+                     'os.execv(%r, [%r] + sys.argv[1:])\n' % (rec, real, real))
+        os.chmod(stand, 0o755)
+        os.makedirs(os.path.join(tmp, '.git-ai'))
+        json.dump({'git_path': stand}, open(os.path.join(tmp, '.git-ai', 'config.json'), 'w'))
+        exe = native.__globals__['replay_binary']()
+        payload = {'repo': repo, 'fn': inp['fn'], 'pathspecs': inp['pathspecs']}
+        p = subprocess.run([exe, 'c12_callsite'], input=json.dumps(payload).encode(), stdout=subprocess.PIPE, stderr=subprocess.PIPE, env=env, timeout=60)
+        if p.returncode == 101:
+            return {'reproduced': v['kind'] == 'panic', 'stderr': p.stderr.decode('utf-8', 'replace')[-300:]}
+        got = json.load(open(rec)) if os.path.exists(rec) else None
+        ob = v['obligation']
+        if ob == 'K3-empty-filter-asks-nothing':
+            return {'reproduced': got is not None, 'argv': got}
+        if got is None:
+            return {'reproduced': ob == 'K3-one-git-call', 'argv': None}
+        cut = got.index('--') if '--' in got else len(got)
+        missing = [o for o in REQUIRED_PATCH if o not in got[:cut]]
+        want = sorted(bytes_of_json(x).decode('utf-8') for x in (inp['pathspecs'] or []))
+        bad = {'K3-patch-call-neutralises-configuration': bool(missing),
+               'K3-pathspecs-passed-after-the-separator': inp['pathspecs'] is not None and sorted(got[cut + 1:]) != want}
+        return {'reproduced': bool(bad.get(ob)), 'argv': got, 'missing': missing}
+    finally:
+        subprocess.call(['rm', '-rf', tmp])
 
 
 def replay(v, native):
+    if 'fn' in v['inputs']:
+        return _replay_callsite(v, native)
     inp = v['inputs']
     if v['obligation'].startswith('K1-hooks'):
         return {'reproduced': False, 'note': 'hooks guard is thread-local state; replay not implemented'}
